@@ -409,7 +409,11 @@ class CFG:
         unit_pairs = self.get_unit_pairs()
         generating = self.get_generating_symbols()
         reachables = self.get_reachable_symbols()
-        if (len(nullables) != 0 or len(unit_pairs) != len(self._variables) or
+        has_unit_production = any(
+            len(x.body) == 1 and isinstance(x.body[0], Variable)
+            for x in self._productions)
+        if (len(nullables) != 0 or has_unit_production or
+                len(unit_pairs) != len(self._variables) or
                 len(generating) !=
                 len(self._variables) + len(self._terminals) or
                 len(reachables) !=
